@@ -442,6 +442,7 @@ pub fn c14(c: &Corpus, tier: &str, seed: u64) -> Vec<Report> {
     use sqlparser::parser::{Parser, ParserOptions};
     use sqlparser::tokenizer::Tokenizer;
     let ds = all_dialects();
+    let mut extra_reports: Vec<Report> = vec![];
     let mut r = Report::new("C14", "oracle.routes", "every corpus literal (accepted or not) x dialect x 2 option sets: parse_sql == new().with_options().try_with_sql().parse_statements() == with_tokens_with_locations(tokenize_with_location) == with_tokens(tokenize) (errors compared modulo the position suffix for the location-less route); standalone parse_expr / parse_data_type / parse_object_name == the subtree inside `SELECT <e>`, `CAST(x AS <t>)`, `SELECT * FROM <n>`. non-trivial = distinct (outcome class, dialect, route)");
     let mut distinct = BTreeSet::new();
     let strip = |e: &sqlparser::parser::ParserError| -> String { let s = e.to_string(); match s.rfind(" at Line: ") { Some(p) => s[..p].to_string(), None => s } };
@@ -556,6 +557,30 @@ pub fn c14(c: &Corpus, tier: &str, seed: u64) -> Vec<Report> {
     }
 
     // state restoration after every failing prefix (systematic)
+    // options builder: every way of building the same option set gives the same options
+    {
+        let mut rb = Report::new("C14", "oracle.options-builder", "ParserOptions: for all four (trailing_commas, unescape) pairs the two builder orders, the struct literal and re-applying a setter give equal values, and a parser configured through either order reports that configuration (verif_state); exhaustive");
+        rb.exhaustive = true;
+        for tc in [false, true] { for un in [false, true] {
+            rb.evaluations += 1;
+            let a = ParserOptions::new().with_trailing_commas(tc).with_unescape(un);
+            let b = ParserOptions::new().with_unescape(un).with_trailing_commas(tc);
+            let c = ParserOptions { trailing_commas: tc, unescape: un };
+            let d2 = a.clone().with_trailing_commas(tc);
+            let input = format!("trailing_commas={tc} unescape={un}");
+            if a != b || a != c || a != d2 {
+                rb.fail("options-builder/order-dependent".into(), "generic", Opts::DEFAULT, &input, format!("tc-then-un={a:?} un-then-tc={b:?} literal={c:?} reapplied={d2:?}"));
+            }
+            for (name, o2) in [("tc-then-un", a), ("un-then-tc", b)] {
+                let g = sqlparser::dialect::GenericDialect {};
+                let p = Parser::new(&g).with_options(o2);
+                let st = p.verif_state();
+                if st.2 != tc || st.3 != un { rb.fail("options-builder/parser-sees-other-options".into(), "generic", Opts::DEFAULT, &input, format!("{name}: verif_state={st:?}")); }
+            }
+        } }
+        rb.distinct_nontrivial = 4;
+        extra_reports.push(rb);
+    }
     let mut r4 = Report::new("C14", "oracle.state-after-failure", "every accepted corpus (text, dialect) pair: the text cut at token boundaries (each prefix usually fails somewhere inside a construct) is run on a parser with non-default options and limit; afterwards verif_state() must show state Normal, the configured trailing_commas/unescape and the initial depth, and a following run on the same parser value must equal a fresh run; non-trivial = distinct (first statement variant, dialect) whose prefixes were rejected");
     {
         let mut d4 = BTreeSet::new();
@@ -648,7 +673,9 @@ pub fn c14(c: &Corpus, tier: &str, seed: u64) -> Vec<Report> {
         r3.distinct_nontrivial = mixed;
         r3.sample(serde_json::json!({"sequences": nseq}));
     }
-    vec![r, r2, r3, r4]
+    let mut out = vec![r, r2, r3, r4];
+    out.extend(extra_reports);
+    out
 }
 
 // ------------------------------------------------------------------ C15
